@@ -165,7 +165,8 @@ def answer (ty : Ty) (toks : List ITok) : String :=
   let specPart := match spec with
     | .ok r =>
       let rty := resolveTy ty r.obj
-      let cells := part (staticObject r.obj rty) showCells
+      -- rendered with the conversions of simple assignment (6.7.9p11): the automatic back end's leaf stores
+      let cells := part (autoObject r.obj rty) showCells
       (r.obj, rty, s!"spec {cells} over={if r.over then 1 else 0}")
     | .error e => (Init.flex, ty, "spec " ++ showFail e)
   match initializer fuel ty toks with
